@@ -76,9 +76,10 @@ def cases(tier, seed):
 
 
 def classify(rec, pfail, mfail, extra, rep):
-    if pfail != "none" and rec["flavor"] == "cff" and not rec["names"] and rec.get("ret", {}).get("err", "").startswith("Save:"):
-        rep.known("F-C04-1", "compileOTF of a source without glyphs (only the synthesised .notdef) with the default "
-                             "subroutinisation returns a font that cannot be saved (AttributeError: charset)")
+    if pfail != "none" and font_exec.isoadobe_prefix_failure(rec):
+        rep.known("F-C04-1", "compileOTF (CFF 1, cffsubr) of a font whose glyph order is a prefix of the ISOAdobe charset "
+                             "(e.g. only .notdef, or .notdef + space) returns a font that cannot be saved "
+                             "(AttributeError: charset)")
         return "known:F-C04-1"
     return None
 
